@@ -160,7 +160,8 @@ fn run_scenario(sc: Scenario) -> String {
 
 fn run_history(ops: &[(i64, i64)]) -> String {
     let maxtag = ops.iter().filter(|o| o.0 == 1).map(|o| o.1 as usize + 1).max().unwrap_or(0).min(MAXTAG);
-    let ch: Channel<Payload> = Channel::default() // what WithRawSiginfo::init builds (Box::default());
+    // built the way WithRawSiginfo::init builds it (Box::default())
+    let ch: Channel<Payload> = Channel::default();
     let mut s = String::from("R");
     for &(k, x) in ops {
         let r = match k {
